@@ -32,6 +32,7 @@
 (*     installed and simply not define that provider; and a search path    *)
 (*     configured on the interface may itself not be installed (GhostsAll).*)
 (*     None of this is visible in the answer (URefs, UnknownMissing).      *)
+(*   - "abstract" covers every way a class can be abstract (AbsWays).      *)
 (***************************************************************************)
 EXTENDS Integers, Sequences, FiniteSets, TLC, Json
 CONSTANTS N,            \* classes per universe
@@ -85,6 +86,21 @@ Absent == {sh \in Shapes : sh[2] < sh[1]}
 \* recorded trace names its own; the as-is model BankImpl!IGetUnknown is checked for all of them).
 NoGhost == <<0, 0>>
 GhostsAll == {NoGhost} \cup Absent
+
+\* "Abstract" (the flag abs) is all the requirement knows; HOW a class comes to be abstract is not mentioned anywhere,
+\* so every behaviour and every lookup table below is required under each way alike (the replay draws one per
+\* abstract class, a recorded trace names its own: ways[c], 0 for a concrete class):
+\*   1 = the class declares an abstract method of its own;
+\*   2 = it declares nothing and leaves an abstract method it inherits unimplemented (possible only where the
+\*       parent still has one: the parent is the root interface or is itself abstract in way 1 or 2);
+\*   3 = all its methods are concrete but it carries an abstract inner class (the library's own extended notion,
+\*       forml.provider.isabstract).
+\* (Concrete classes implement / override everything abstract they inherit - methods and inner classes.)
+AbsWays == 1..3
+OpenMethods(cs, w, c) == IF c = 0 THEN TRUE ELSE cs[c].abs /\ w[c] \in {1, 2}
+WaysOK(cs, w) == /\ Len(w) = Len(cs)
+                 /\ \A c \in 1..Len(cs) : /\ w[c] \in (IF cs[c].abs THEN AbsWays ELSE {0})
+                                          /\ w[c] = 2 => OpenMethods(cs, w, cs[c].par)
 
 Uni(cs, nm) == [cls |-> cs, name |-> nm, anc |-> [c \in 1..Len(cs) |-> AncOf(cs, c)],
                 clo |-> [m \in 1..Len(nm) |-> CloOf(cs, m)]]
@@ -220,6 +236,6 @@ Done == IF UseModules THEN (imp = Mods \/ (DoExport /\ hist # <<>> /\ hist[Len(h
 Export == (DoExport /\ Done) => PrintT(ToJson([cls |-> u.cls, name |-> u.name, acc |-> acc, hist |-> hist, table |-> Table]))
 \* printed once (constant sets): the references every exported table is silent about for a reason of their own -
 \* "missing" is required for each of them through every interface - and the search path configurations of the root
-\* interface under each of which every exported behaviour is required
-ASSUME DoExport => PrintT(ToJson([urefs |-> URefs, ghosts |-> GhostsAll]))
+\* interface, and the ways of being abstract, under each of which every exported behaviour is required
+ASSUME DoExport => PrintT(ToJson([urefs |-> URefs, ghosts |-> GhostsAll, ways |-> AbsWays]))
 =============================================================================
